@@ -3,7 +3,7 @@
    view is the hand-written files + what earlier runs left (prior) + the overlay; no absolute path, no clock.
    Only statements here; proofs in Proofs/GenSigmaProofs.v, GenProofs.v, GenBaseProofs.v, GenWitnessProofs.v. *)
 From Coq Require Import List String Bool Permutation.
-From Shoot Require Import Model.Gen Proofs.GenBaseProofs Proofs.GenProofs Proofs.GenSigmaProofs Proofs.GenMapSigmaProofs Proofs.GenNewProofs Proofs.GenResetProofs Proofs.GenWitnessProofs.
+From Shoot Require Import Model.Gen Proofs.GenBaseProofs Proofs.GenProofs Proofs.GenSigmaProofs Proofs.GenMapSigmaProofs Proofs.GenNewProofs Proofs.GenFixProofs Proofs.GenResetProofs Proofs.GenWitnessProofs.
 Import ListNotations.
 Local Open Scope string_scope.
 
@@ -133,6 +133,32 @@ Theorem C07_new_twice_is_fixpoint : forall p c o1 o2 prior w dir,
   exists w' dir', run o2 p dir c = ODone w' dir' /\ listing dir' = listing dir /\ Permutation w' w.
 Proof. exact new_twice_fixpoint. Qed.
 Print Assumptions C07_new_twice_is_fixpoint.
+
+(* the usual //go:generate form `shoot <cmd> ... -file=f` (one all-in-one file; Clean is not active with -file):
+   generate twice = generate once *)
+Theorem C07_enum_twice_is_fixpoint_file : forall p c o1 o2 prior w dir,
+  c_sub c = CEnum -> specified c = false -> c_file c <> "" ->
+  legal o1 -> legal o2 -> NoDup (keys prior) ->
+  run o1 p prior c = ODone w dir ->
+  exists w' dir', run o2 p dir c = ODone w' dir' /\ listing dir' = listing dir /\ Permutation w' w.
+Proof. exact enum_twice_fixpoint_file. Qed.
+Print Assumptions C07_enum_twice_is_fixpoint_file.
+
+Theorem C07_rest_twice_is_fixpoint_file : forall p c o1 o2 prior w dir,
+  c_sub c = CRest -> specified c = false -> c_file c <> "" -> rest_pkg_ok (p_hw p) ->
+  legal o1 -> legal o2 -> NoDup (keys prior) ->
+  run o1 p prior c = ODone w dir ->
+  exists w' dir', run o2 p dir c = ODone w' dir' /\ listing dir' = listing dir /\ Permutation w' w.
+Proof. exact rest_twice_fixpoint_file. Qed.
+Print Assumptions C07_rest_twice_is_fixpoint_file.
+
+Theorem C07_new_twice_is_fixpoint_file : forall p c o1 o2 prior w dir,
+  c_sub c = CNew -> specified c = false -> c_file c <> "" -> no_embedding (hand_of (p_hw p)) ->
+  legal o1 -> legal o2 -> NoDup (keys prior) ->
+  run o1 p prior c = ODone w dir ->
+  exists w' dir', run o2 p dir c = ODone w' dir' /\ listing dir' = listing dir /\ Permutation w' w.
+Proof. exact new_twice_fixpoint_file. Qed.
+Print Assumptions C07_new_twice_is_fixpoint_file.
 
 (* the analysis of a type never depends on the hand-written part of the view through generated files *)
 Theorem C07_hand_part_independent_of_generated_files : forall hw disk ov,
